@@ -33,6 +33,9 @@ CLAIMED = {
  "C17": ("exploration", "4.10", "every mutating system call of a checkout is resolved (real path of its parent at that instant) by a confinement monitor and must land inside the work tree; the control directory is snapshotted around each operation and may change only in the files checkout maintains; 1-3 adversarial trees (unsafe names, NTFS/HFS spellings, symlinks to absolute/parent/.git targets, names changing kind between trees, odd mode bits) are materialised in sequence by clone, checkout, checkout --force, reset --hard, build_index_from_tree and update_working_tree with protectNTFS/HFS on/off and optional injected errors mid-checkout; canaries outside the work tree and final mode bits are checked",
          "work tree six levels deep so escapes stay inside the monitored sandbox; Windows/macOS semantics not simulated; stash apply and patch application not yet driven",
          "deterministic simulation: simfs syscall monitor as a per-call invariant, generated tree sequences as histories, fault injection mid-checkout"),
+ "C18": ("exploration", "4.11", "the simulator owns time.time() and every file timestamp (granularity 1 ns .. 2 s): a generated tree (any bytes, empty and large files, executables, symlinks incl. dangling/self-referential, nested directories, non-UTF-8 and quote-needing names) is checked out by reset --hard / checkout / clone, staged again (tree id must round-trip, content/targets/exec bits compared), then 4-14 edits (same-size and other-size modification, chmod, delete, untracked, file<->symlink<->directory, stage, unstage, rm --cached, commit, switch tree) each followed by porcelain.status compared with a three-state content model, under normal, skewed and racy clock configurations",
+         "content model is the oracle (git status not consulted); autocrlf/filters off; one recorded finding covers the racy-timestamp class",
+         "deterministic simulation: virtual clock and file timestamps as the controlled nondeterminism, edit histories checked stepwise against a reference model"),
 }
 NA = {
  "C01": "pure function of object field values / setter order: no schedule, clock, fault or I/O seam for a simulator to own (DESIGN.md section 5)",
